@@ -18,7 +18,7 @@ from lib import exprs as E, exprgen as G, exprcheck as X
 THEOREMS = ["Claripy.Props.C06.C06_int_roundtrip", "Claripy.Props.C06.C06_intBytes_injective",
             "Claripy.Props.C06.C06_pyhash_collision_neg1_neg2", "Claripy.Props.C06.C06_pyhash_collision_modulus",
             "Claripy.Props.C06.C06_table_key", "Claripy.Props.C06.C06_never_merges", "Claripy.Props.C06.C06_same_object",
-            "Claripy.Props.C06.C06_collision_merges", "Claripy.Props.C06.run_keyOK", "Claripy.Props.C06.C06_floatBytes_injective"]
+            "Claripy.Props.C06.C06_collision_merges", "Claripy.Props.C06.run_keyOK", "Claripy.Props.C06.C06_floatBytes_injective", "Claripy.Props.C06.C06_int_not_sentinel"]
 
 M61 = (1 << 61) - 1
 
